@@ -12,6 +12,7 @@ TRUSTED_BASE = [
 ASSUMPTIONS = [
     'machine integers are bit-vectors of the real widths',
     'element types obey their declared category (a type declaring trivially_relocatable really is; move of category NR is noexcept)',
+    'relational comparison of pointers into different objects (the "is v inside [begin,end)" idiom of adjustCapacity) yields a total order on (object, offset)',
     'one arbitrary element cell / value token / allocator block is tracked per proof run (skolemised universal quantification)',
 ]
 PROP_ASSUMPTIONS = {}
@@ -60,6 +61,17 @@ def units():
                              ('swap_impl__r' + b, ['C01', 'C02', 'C05', 'C06', 'C07'])]:
                 add('svb.%s.%s.%s' % (m.split('__')[0] + ('_c' if m.endswith('_c') else ''), et, sz), b + '__' + m, props, 1, b, sz, elem,
                     throws_reachable=False)
+    # ---- public operations (VectorImpl) per flavour
+    FLAV = {'small': (1, 'SmallVectorBase_E_A_%s', 'VectorImpl_E_A_%s_t_Dyn'), 'std': (2, 'StdVectorBase_E_A_%s', 'VectorImpl_E_A_%s_f_Dyn'),
+            'static': (3, 'StaticVectorBase_E_%s', 'VectorImpl_E_X_%s_t_Exc')}
+    L2 = [('push_back__rE', ['C01', 'C02', 'C05', 'C06', 'C07', 'C08', 'C09', 'C10', 'C18'])]
+    for elem in ('ElemNR', 'ElemTR'):
+        et = ELEM_TAG[elem]
+        for sz in ('u8',):
+            for fl, (fnum, bpat, vpat) in FLAV.items():
+                for m, props in L2:
+                    pp = [p for p in props if not (fl == 'static' and p in ('C06', 'C18')) and not (fl == 'std' and p == 'C05')]
+                    add('op.%s.%s.%s.%s' % (m.split('__')[0] + '_' + m.split('__')[1], fl, et, sz), (vpat % sz) + '__' + m, pp, fnum, bpat % sz, sz, elem)
     for sz in ('u8',):
         add('SafeNextCapacity.%s' % sz, 'SafeNextCapacity__%s_u64_b' % sz, ['C08', 'C18'], 1, svb('ElemNR', sz), sz, 'ElemNR')
     add('ExceptionGrowingPolicy.Check', 'Exc__Check__u64_u64', ['C08'], 1, svb('ElemNR', 'u8'), 'u8', 'ElemNR')
